@@ -718,10 +718,50 @@ def register_all(M):
             return Opaque("bytes", elems_of(v))
         if db == "usize" and base_type(src) in ("u8", "u16", "u32"):
             return v if not is_sym(v) else simp(bv(v, 64))
+        INTB = {"u8": 8, "u16": 16, "u32": 32, "u64": 64, "usize": 64, "char": 32}
+        sb = base_type(src)
+        if db in INTB and sb in INTB and INTB[db] >= INTB[sb] and not (db == "char" and sb not in ("u8", "char")):
+            # lossless widening (u8 -> u32, char -> u32, u8 -> char ...)
+            d = deref(v)
+            if not is_sym(d):
+                return d
+            return simp(z3.ZeroExt(INTB[db] - d.size(), d)) if d.size() < INTB[db] else d
         if db == "LayoutModifiers":
             f = it.p.find_trait_fn("LayoutModifiers", "From", "from")
             return it.call_function(f, [v])
         raise Unsupported("Into/From %s" % callee)
+
+    @reg("TryFrom::try_from", "TryInto::try_into")
+    def m_try_from(it, args, callee):
+        m = re.match(r"<(.*)>::(try_into|try_from)$", callee.strip())
+        inner = m.group(1) if m else ""
+        t, tr = split_as(inner)
+        target = tr[tr.index("<") + 1:tr.rindex(">")] if tr and "<" in tr else ""
+        src, dst = (t, target) if callee.strip().endswith("try_into") else (target, t)
+        INTB = {"u8": 8, "u16": 16, "u32": 32, "u64": 64, "usize": 64, "char": 32}
+        sb, db = base_type(src), base_type(dst)
+        if sb not in INTB or db not in INTB:
+            raise Unsupported("TryFrom %s" % callee)
+        d = deref(args[0])
+        top = (1 << INTB[db]) - 1
+        if db == "char":
+            if not is_sym(d):
+                return ok(d) if (d <= 0x10FFFF and not 0xD800 <= d <= 0xDFFF) else err(Opaque("CharTryFromError"))
+            x = bv(d, 32) if d.size() <= 32 else d
+            fits = z3.And(z3.ULE(x, 0x10FFFF), z3.Or(z3.ULT(x, 0xD800), z3.UGT(x, 0xDFFF)))
+            return ok(simp(z3.Extract(31, 0, x)) if x.size() > 32 else x) if it.st.branch(simp(fits)) else err(Opaque("CharTryFromError"))
+        if not is_sym(d):
+            return ok(d) if d <= top else err(Opaque("TryFromIntError"))
+        if d.size() <= INTB[db]:
+            return ok(simp(z3.ZeroExt(INTB[db] - d.size(), d)) if d.size() < INTB[db] else d)
+        if it.st.branch(simp(z3.ULE(d, top))):
+            return ok(simp(z3.Extract(INTB[db] - 1, 0, d)))
+        return err(Opaque("TryFromIntError"))
+
+    @reg("char::from_u32")
+    def m_char_from_u32(it, args, callee):
+        r = m_try_from(it, args, "<char as TryFrom<u32>>::try_from")
+        return some(r.fields[0]) if r.variant == 0 else none()
 
     @reg("Add::add")
     def m_string_add(it, args, callee):
@@ -2685,9 +2725,12 @@ def register_all(M):
     def m_from_utf8_lossy(it, args, callee):
         # lossy decoding of arbitrary bytes: some text of at most as many characters (each any scalar value; U+FFFD among them)
         src = deref(args[0])
-        n = min(3, len(src.items) if hasattr(src, "items") else len(slice_of(src)))       # bound: at most three characters of text
+        n = min(1, len(src.items) if hasattr(src, "items") else len(slice_of(src)))       # bound: one character of text (any scalar but a line break)
         k = it.st.counter = getattr(it.st, "counter", 0) + 1
-        return Agg("adt:Cow", 1, [SString([it.st.sym_char("lossy%d_%d" % (k, i)) for i in range(n)])])
+        chars = [it.st.sym_char("lossy%d_%d" % (k, i)) for i in range(n)]
+        for c in chars:
+            it.st.assume(z3.And(c != 0x0A, c != 0x0D))
+        return Agg("adt:Cow", 1, [SString(chars)])
 
     @reg("_eprint", "_print", "io::_eprint", "io::_print", "stdio::_eprint", "stdio::_print")
     def m_print(it, args, callee):
